@@ -1,8 +1,9 @@
 import SaphyrVerif.Lemmas.C13_Lex
 /-!
 C13 proof machinery, part 3b: the reference reader maps the layout of a fragment value back to
-`erase v`, for all token functions that satisfy `ReadContract` (`ScalarTok`: a token alone on a line reads as
-its string; `KeyTok`: a token followed by `:` is an implicit key that reads as its string).  Fuel: every lemma asks for `2 * (characters of the node's own lines) + 1`; the root
+`erase v`, for all texts that satisfy `ReadContract` (`LeafOK`: what is written for a string leaf — a token alone
+on a line, `ScalarTok`, or the header and the body lines of a block scalar — reads as its string;
+`KeyTok`: a token followed by `:` is an implicit key that reads as its string).  Fuel: every lemma asks for `2 * (characters of the node's own lines) + 1`; the root
 supplies `2 * text.length + …`.
 -/
 set_option linter.unusedSimpArgs false
@@ -85,12 +86,46 @@ structure KeyTok (K : List Char) (s : List Char) : Prop where
   noMarker : ∀ after, isDocMarker ⟨0, K ++ ':' :: after⟩ "---".toList = false ∧
     isDocMarker ⟨0, K ++ ':' :: after⟩ "...".toList = false
 
-/-- what the reader theorems assume about the tokens `T` written for the strings of a class `P` -/
-structure ReadContract (P : LeafPred) (T : Toks) : Prop where
-  str : ∀ s, P.str s = true → ScalarTok (T.str s) (.str s)
-  unit : ∀ e n, P.unit e n = true → ScalarTok (T.unit e n) (.str n)
+/-- a line of the body of a block scalar: indented (never at column 0, hence no document marker / directive),
+the leading blanks of the content line counted as indentation, on one line; it may be blank or look like a
+comment -/
+structure BodyLine (l : Line) : Prop where
+  ind : l.indent ≥ 1
+  head : l.text.head? ≠ some ' '
+  chars : ∀ x ∈ l.text, lineChar x = true
+
+/-- What is written for a leaf — the text `r.1` on the line of the leaf (after the indentation, or after `- `,
+`? `, `: `, `key: ` on that line) and the lines `r.2` that follow it (none for a plain / quoted token, the body
+lines for a block scalar) — reads as `p` where a node of least indentation `n` is expected, whatever lines that do
+not continue it follow; `r.1` can start a line and lies on one line, `r.2` are body lines. -/
+structure LeafOK (n : Nat) (r : List Char × List Line) (p : PVal) : Prop where
+  read : ∀ (fuel : Nat) (seqAt : Option Nat) (inl : Bool) (i : Nat) (rest : List Line), n ≤ i → DedLt n rest →
+    blockNode (fuel + 1) n seqAt inl (⟨i, r.1⟩ :: r.2 ++ rest) = some (p, rest)
+  ne : r.1 ≠ []
+  head : r.1.head? ≠ some ' ' ∧ r.1.head? ≠ some '#' ∧ r.1.head? ≠ some '%'
+  chars : ∀ x ∈ r.1, lineChar x = true
+  noMarker : isDocMarker ⟨0, r.1⟩ "---".toList = false ∧ isDocMarker ⟨0, r.1⟩ "...".toList = false
+  body : ∀ l ∈ r.2, BodyLine l
+
+/-- a scalar token is a leaf without following lines, in every position -/
+theorem ScalarTok.leafOK {t : List Char} {p : PVal} (h : ScalarTok t p) (n : Nat) : LeafOK n (t, []) p :=
+  ⟨fun fuel seqAt inl i rest hi hd => by simpa using h.read fuel n seqAt inl i rest hi hd, h.ne, h.head, h.chars, h.noMarker,
+    fun _ hl => absurd hl (by simp)⟩
+
+/-- what the reader theorems assume about the texts `T` written for the strings of a class `P` (`k` =
+`indent_step`, on which the layout of a block scalar depends) -/
+structure ReadContract (P : LeafPred) (T : Toks) (k : Nat) : Prop where
+  str : ∀ pos s, P.str s = true → LeafOK pos.minIndent (T.strAt k pos s) (.str s)
+  unit : ∀ pos e n, P.unit e n = true → LeafOK pos.minIndent (T.unitAt k pos e n) (.str n)
   key : ∀ s, P.key s = true → KeyTok (T.key s) s
   name : ∀ n, P.name n = true → KeyTok (T.name n) n
+
+/-- the read contract of texts that are tokens (no block scalars), for every `indent_step` -/
+theorem ReadContract.ofTok {P : LeafPred} {T : Toks} (ht : T.IsTok) (hs : ∀ s, P.str s = true → ScalarTok (T.str s) (.str s))
+    (hu : ∀ e n, P.unit e n = true → ScalarTok (T.unit e n) (.str n)) (hk : ∀ s, P.key s = true → KeyTok (T.key s) s)
+    (hn : ∀ n, P.name n = true → KeyTok (T.name n) n) (k : Nat) : ReadContract P T k :=
+  ⟨fun pos s h => by rw [ht.1 k pos s]; exact (hs s h).leafOK _,
+   fun pos e n h => by rw [ht.2 k pos e n]; exact (hu e n h).leafOK _, hk, hn⟩
 
 theorem keyStart_ne {c : Char} (h : keyStart c = true) (x : Char) (hx : keyStart x = false) : c ≠ x := by
   rintro rfl; rw [h] at hx; exact Bool.noConfusion hx
@@ -389,6 +424,7 @@ theorem PlainTok.itemHead {t : List Char} (h : PlainTok t) : ItemHead t := by
   exact ⟨by simp, by simp only [List.head?_cons, ne_eq, Option.some.injEq]; rintro rfl; exact absurd hc (by decide)⟩
 
 theorem ScalarTok.itemHead {t : List Char} {p : PVal} (h : ScalarTok t p) : ItemHead t := ⟨h.ne, h.head.1⟩
+theorem LeafOK.itemHead {n : Nat} {r : List Char × List Line} {p : PVal} (h : LeafOK n r p) : ItemHead r.1 := ⟨h.ne, h.head.1⟩
 
 theorem key_itemHead {K k : List Char} (hk : KeyTok K k) (after : List Char) : ItemHead (K ++ ':' :: after) := by
   obtain ⟨c, cs, rfl, hc⟩ := hk.start
@@ -434,15 +470,13 @@ theorem scalarTok_int (i : Int) : ScalarTok (intText i) (.int i) := by
   simpa [resolvePlain_int] using (intText_plainTok i).scalarTok (intText_dash i)
 
 /-- the token of a leaf of the fragment reads as the leaf -/
-theorem leafTok_scalarTok {P : LeafPred} {T : Toks} (hr : ReadContract P T) {v : SVal} {tok : List Char}
+theorem leafTok_scalarTok {P : LeafPred} {T : Toks} {k : Nat} (hr : ReadContract P T k) {v : SVal} {tok : List Char}
     (hv : inFragP P v = true) (ht : leafTok T v = some tok) : ScalarTok tok (erase v) := by
   cases v <;> simp only [leafTok, Option.some.injEq, reduceCtorEq] at ht
   · subst ht; exact scalarTok_null
   · subst ht; exact scalarTok_bool _
   · subst ht; exact scalarTok_int _
-  · subst ht; simp only [inFragP] at hv; exact hr.str _ hv
   · subst ht; exact scalarTok_null
-  · subst ht; simp only [inFragP] at hv; exact hr.unit _ _ hv
 
 theorem keyOf_complex' : ∀ (k : SVal), isComplexKey k = true → keyOf k = none := by
   intro k h
@@ -453,19 +487,19 @@ theorem laySeqItem_head (T : Toks) (k : Nat) (cp : Bool) (d : Nat) (lvb : Bool) 
   · exact ⟨by decide, by decide⟩
   · exact ⟨by simp, by simp⟩
 
-theorem itemHead_layItem {P : LeafPred} {T : Toks} (hr : ReadContract P T) (k : Nat) (cp : Bool) : ∀ (v : SVal), inFragP P v = true → ∀ (d : Nat) (lvb : Bool), ItemHead (layItem T k cp d lvb v).1
+theorem itemHead_layItem {P : LeafPred} {T : Toks} {k : Nat} (hr : ReadContract P T k) (cp : Bool) : ∀ (v : SVal), inFragP P v = true → ∀ (d : Nat) (lvb : Bool), ItemHead (layItem T k cp d lvb v).1
   | .unit, _, d, lvb => by simpa [layItem] using plainTok_null.itemHead
   | .none, _, d, lvb => by simpa [layItem] using plainTok_null.itemHead
   | .bool b, _, d, lvb => by cases b <;> simpa [layItem] using (by first | exact plainTok_true.itemHead | exact plainTok_false.itemHead)
   | .int i, _, d, lvb => by simpa [layItem] using (intText_plainTok i).itemHead
   | .str t, hv, d, lvb => by
     simp only [inFragP] at hv
-    simpa [layItem] using (hr.str t hv).itemHead
+    simpa [layItem] using (hr.str (.item d) t hv).itemHead
   | .unitVariant e n, hv, d, lvb => by
     simp only [inFragP] at hv
-    simpa [layItem] using (hr.unit e n hv).itemHead
-  | .some v, hv, d, lvb => by simp only [inFragP] at hv; simpa [layItem] using itemHead_layItem hr k cp v hv d lvb
-  | .newtypeStruct v, hv, d, lvb => by simp only [inFragP] at hv; simpa [layItem] using itemHead_layItem hr k cp v hv d lvb
+    simpa [layItem] using (hr.unit (.item d) e n hv).itemHead
+  | .some v, hv, d, lvb => by simp only [inFragP] at hv; simpa [layItem] using itemHead_layItem hr cp v hv d lvb
+  | .newtypeStruct v, hv, d, lvb => by simp only [inFragP] at hv; simpa [layItem] using itemHead_layItem hr cp v hv d lvb
   | .newtypeVariant n v, hv, d, lvb => by
     simp only [inFragP, Bool.and_eq_true] at hv
     simp only [layItem]; exact variantItem_head (hr.name n hv.1) _
@@ -500,6 +534,8 @@ theorem itemHead_layItem {P : LeafPred} {T : Toks} (hr : ReadContract P T) (k : 
 
 theorem valHead_tok {t : List Char} (h : PlainTok t) : ValHead (' ' :: t) := Or.inr ⟨t, rfl, h.itemHead⟩
 theorem valHead_scalar {t : List Char} {p : PVal} (h : ScalarTok t p) : ValHead (' ' :: t) := Or.inr ⟨t, rfl, h.itemHead⟩
+theorem valHead_leaf {n : Nat} {r : List Char × List Line} {p : PVal} (h : LeafOK n r p) : ValHead (' ' :: r.1) :=
+  Or.inr ⟨r.1, rfl, h.itemHead⟩
 
 theorem seqValOf_head (e : Bool) (items : List Line) : ValHead (seqValOf e items).1 := by
   cases e <;> simp only [seqValOf, if_true, if_false, Bool.false_eq_true]
@@ -513,19 +549,19 @@ theorem mapValOf_head (m : Nat) (lvb e : Bool) (entries : List Line) : ValHead (
   · exact Or.inr ⟨_, rfl, ⟨by decide, by decide⟩⟩
   · exact Or.inl rfl
 
-theorem valHead_layVal {P : LeafPred} {T : Toks} (hr : ReadContract P T) (k : Nat) (cp im : Bool) : ∀ (v : SVal), inFragP P v = true → ∀ (m : Nat) (lvb : Bool), ValHead (layVal T k cp im m lvb v).1
+theorem valHead_layVal {P : LeafPred} {T : Toks} {k : Nat} (hr : ReadContract P T k) (cp im : Bool) : ∀ (v : SVal), inFragP P v = true → ∀ (m : Nat) (lvb : Bool), ValHead (layVal T k cp im m lvb v).1
   | .unit, _, m, lvb => by simpa [layVal] using valHead_tok plainTok_null
   | .none, _, m, lvb => by simpa [layVal] using valHead_tok plainTok_null
   | .bool b, _, m, lvb => by cases b <;> simpa [layVal] using (by first | exact valHead_tok plainTok_true | exact valHead_tok plainTok_false)
   | .int i, _, m, lvb => by simpa [layVal] using valHead_tok (intText_plainTok i)
   | .str t, hv, m, lvb => by
     simp only [inFragP] at hv
-    simpa [layVal] using valHead_scalar (hr.str t hv)
+    simpa [layVal] using valHead_leaf (hr.str (.val m) t hv)
   | .unitVariant e n, hv, m, lvb => by
     simp only [inFragP] at hv
-    simpa [layVal] using valHead_scalar (hr.unit e n hv)
-  | .some v, hv, m, lvb => by simp only [inFragP] at hv; simpa [layVal] using valHead_layVal hr k cp im v hv m lvb
-  | .newtypeStruct v, hv, m, lvb => by simp only [inFragP] at hv; simpa [layVal] using valHead_layVal hr k cp im v hv m lvb
+    simpa [layVal] using valHead_leaf (hr.unit (.val m) e n hv)
+  | .some v, hv, m, lvb => by simp only [inFragP] at hv; simpa [layVal] using valHead_layVal hr cp im v hv m lvb
+  | .newtypeStruct v, hv, m, lvb => by simp only [inFragP] at hv; simpa [layVal] using valHead_layVal hr cp im v hv m lvb
   | .newtypeVariant n v, _, m, lvb => by simp only [layVal, variantVal]; exact Or.inl rfl
   | .tupleVariant n xs, _, m, lvb => by simp only [layVal, variantVal]; exact Or.inl rfl
   | .structVariant n fs, _, m, lvb => by simp only [layVal, variantVal]; exact Or.inl rfl
@@ -561,6 +597,25 @@ theorem valueParse_leaf (fuel c klen : Nat) {t : List Char} {p : PVal} (rest : L
   simp only [valueParse, hds, hrc, List.isEmpty_cons, List.head?_cons, Option.some.injEq, beq_iff_eq, h2, Bool.false_or,
     decide_false, Bool.false_eq_true, if_false]
   exact ht.read fuel (c + 1) none true _ rest (by omega) hd
+
+/-- a leaf with following lines (a block scalar) right after `key:` -/
+theorem valueParse_leafOK (fuel c klen : Nat) {r : List Char × List Line} {p : PVal} (rest : List Line) (ht : LeafOK (c + 1) r p)
+    (hd : DedLt (c + 1) rest) : valueParse (fuel + 1) c klen (' ' :: r.1) (r.2 ++ rest) = some (p, rest) := by
+  have hne := ht.ne
+  have hhd := ht.head
+  obtain ⟨t, body⟩ := r
+  simp only at hne hhd ⊢
+  obtain ⟨a, as, rfl⟩ : ∃ a as, t = a :: as := by
+    cases t with
+    | nil => exact absurd rfl hne
+    | cons a as => exact ⟨a, as, rfl⟩
+  have h1 : a ≠ ' ' := fun e => hhd.1 (by simp [e])
+  have h2 : a ≠ '#' := fun e => hhd.2.1 (by simp [e])
+  have hds : dropSpaces (' ' :: a :: as) = a :: as := by simp [dropSpaces, h1]
+  have hrc : restColumn (c + klen) (' ' :: a :: as) = c + klen + 1 := by simp [restColumn, h1]
+  simp only [valueParse, hds, hrc, List.isEmpty_cons, List.head?_cons, Option.some.injEq, beq_iff_eq, h2, Bool.false_or,
+    decide_false, Bool.false_eq_true, if_false]
+  exact ht.read fuel none true _ rest (by omega) hd
 
 theorem valueParse_emptySeq (fuel c klen : Nat) (rest : List Line) :
     valueParse (fuel + 1) c klen " []".toList rest = some (.seq [], rest) := by
@@ -614,10 +669,23 @@ theorem reads_leaf_item {tok : List Char} {p : PVal} (ht : ScalarTok tok p) : Re
   obtain ⟨f', rfl⟩ : ∃ f', fuel = f' + 1 := ⟨fuel - 1, by omega⟩
   simpa using ht.read f' (c + 1) seqAt false (c + 2) rest (by omega) hd
 
+/-- a leaf with following lines (a block scalar) right after `key:` / right after `- ` -/
+theorem reads_leafOK_val {r : Nat → List Char × List Line} {p : PVal} (ht : ∀ c, LeafOK (c + 1) (r c) p) :
+    ReadsVal (fun c _ _ => (' ' :: (r c).1, (r c).2, false)) p := by
+  intro fuel c im lvb klen rest hfuel hd
+  obtain ⟨f', rfl⟩ : ∃ f', fuel = f' + 1 := ⟨fuel - 1, by omega⟩
+  exact valueParse_leafOK f' c klen rest (ht c) hd.ded
+
+theorem reads_leafOK_item {r : Nat → List Char × List Line} {p : PVal} (ht : ∀ c, LeafOK (c + 1) (r c) p) :
+    ReadsItem (fun c _ => ((r c).1, (r c).2, false)) p := by
+  intro fuel c seqAt lvb rest hfuel hd
+  obtain ⟨f', rfl⟩ : ∃ f', fuel = f' + 1 := ⟨fuel - 1, by omega⟩
+  exact (ht c).read f' seqAt false (c + 2) rest (by omega) hd
+
 /-! ### sequences -/
 
 /-- a sequence right after `key:` -/
-theorem reads_seqVal {P : LeafPred} {T : Toks} {k : Nat} {cp : Bool} (hr : ReadContract P T) (hk : k ≥ 1) {xs : List SVal} (hv : inFragListP P xs = true) (hitems : ReadsItems T k cp xs) :
+theorem reads_seqVal {P : LeafPred} {T : Toks} {k : Nat} {cp : Bool} (hr : ReadContract P T k) (hk : k ≥ 1) {xs : List SVal} (hv : inFragListP P xs = true) (hitems : ReadsItems T k cp xs) :
     ReadsVal (fun c im _ => seqValOf xs.isEmpty (layItems T k cp (seqCol k cp im c) false xs).1) (.seq (eraseList xs)) := by
   intro fuel c im lvb klen rest hfuel hd
   cases xs with
@@ -632,14 +700,14 @@ theorem reads_seqVal {P : LeafPred} {T : Toks} {k : Nat} {cp : Bool} (hr : ReadC
     · -- `compact_list_indent`: the dashes at the column of the key
       have hsc : seqCol k cp im c = c := by simp [seqCol, hcp]
       rw [hsc] at hfuel ⊢
-      have hh := itemHead_layItem hr k cp x hx c false
+      have hh := itemHead_layItem hr cp x hx c false
       have hi := hitems f' c false rest (by simp only [List.length_nil] at hfuel; omega) hd
       simp only [layItems, List.cons_append, List.nil_append, List.append_assoc] at hi ⊢
       rw [blockNode_dash_at f' c _ hh, hi]
       rfl
     · have hsc : seqCol k cp im c = c + k := by simp [seqCol, hcp]
       rw [hsc] at hfuel ⊢
-      have hh := itemHead_layItem hr k cp x hx (c + k) false
+      have hh := itemHead_layItem hr cp x hx (c + k) false
       have hi := hitems f' (c + k) false rest (by simp only [List.length_nil] at hfuel; omega)
         (hd.mono (by omega))
       simp only [layItems, List.cons_append, List.nil_append, List.append_assoc] at hi ⊢
@@ -647,7 +715,7 @@ theorem reads_seqVal {P : LeafPred} {T : Toks} {k : Nat} {cp : Bool} (hr : ReadC
       rfl
 
 /-- a sequence right after `- ` -/
-theorem reads_seqItem {P : LeafPred} {T : Toks} {k : Nat} {cp : Bool} (hr : ReadContract P T) {xs : List SVal} (hv : inFragListP P xs = true) (hitems : ReadsItems T k cp xs) :
+theorem reads_seqItem {P : LeafPred} {T : Toks} {k : Nat} {cp : Bool} (hr : ReadContract P T k) {xs : List SVal} (hv : inFragListP P xs = true) (hitems : ReadsItems T k cp xs) :
     ReadsItem (fun c lvb => laySeqItem T k cp c lvb xs) (.seq (eraseList xs)) := by
   intro fuel c seqAt lvb rest hfuel hd
   cases xs with
@@ -656,7 +724,7 @@ theorem reads_seqItem {P : LeafPred} {T : Toks} {k : Nat} {cp : Bool} (hr : Read
     simpa [laySeqItem, eraseList] using blockNode_emptySeq f' (c + 1) seqAt false (c + 2) rest (by omega)
   | cons x xs' =>
     have hx : inFragP P x = true := by simp only [inFragListP, Bool.and_eq_true] at hv; exact hv.1
-    have hh := itemHead_layItem hr k cp x hx (c + 2) lvb
+    have hh := itemHead_layItem hr cp x hx (c + 2) lvb
     simp only [laySeqItem] at hfuel ⊢
     obtain ⟨f', rfl⟩ : ∃ f', fuel = f' + 1 := ⟨fuel - 1, by omega⟩
     have hi := hitems f' (c + 2) lvb rest
@@ -674,10 +742,10 @@ theorem reads_items_nil {T : Toks} {k : Nat} {cp : Bool} : ReadsItems T k cp [] 
   obtain ⟨f', rfl⟩ : ∃ f', fuel = f' + 1 := ⟨fuel - 1, by omega⟩
   simpa [layItems, eraseList] using blockSeq_end' f' c hd
 
-theorem reads_items_cons {P : LeafPred} {T : Toks} {k : Nat} {cp : Bool} (hr : ReadContract P T) {x : SVal} {xs : List SVal} (hx : inFragP P x = true)
+theorem reads_items_cons {P : LeafPred} {T : Toks} {k : Nat} {cp : Bool} (hr : ReadContract P T k) {x : SVal} {xs : List SVal} (hx : inFragP P x = true)
     (h1 : ReadsItem (fun c lvb => layItem T k cp c lvb x) (erase x)) (h2 : ReadsItems T k cp xs) : ReadsItems T k cp (x :: xs) := by
   intro fuel c lvb rest hfuel hd
-  have hh := itemHead_layItem hr k cp x hx c lvb
+  have hh := itemHead_layItem hr cp x hx c lvb
   simp only [layItems, mu, mu_append, List.length_append, List.length_cons, List.length_nil] at hfuel
   obtain ⟨f', rfl⟩ : ∃ f', fuel = f' + 1 := ⟨fuel - 1, by omega⟩
   have hrest : DedLt (c + 1) ((layItems T k cp c (layItem T k cp c lvb x).2.2 xs).1 ++ rest) := by
@@ -706,6 +774,14 @@ theorem MapStart.notSkippable {t : List Char} (h : MapStart t) (i : Nat) : (⟨i
   | key hk hh => exact key_line_notSkippable hk i _
   | question hh => exact notSkippable_of_head (by decide)
 
+theorem MapStart.notPct {t : List Char} (h : MapStart t) : t.head? ≠ some '%' := by
+  cases h with
+  | key hk hh =>
+    obtain ⟨c, cs, rfl, hc⟩ := hk.start
+    simp only [List.cons_append, List.head?_cons, ne_eq, Option.some.injEq]
+    exact keyStart_ne hc '%' (by decide)
+  | question hh => simp
+
 theorem MapStart.notDash {t : List Char} (h : MapStart t) : ∀ it g, classify t ≠ .dash it g := by
   intro it g
   cases h with
@@ -723,7 +799,7 @@ theorem blockNode_mapStart (fuel n : Nat) (seqAt : Option Nat) (i : Nat) {t : Li
   | question hh => exact blockNode_question fuel n seqAt i ls hh hi
 
 /-- the lines of a non-empty block mapping of the fragment start with a mapping line at its column -/
-theorem layEntries_start {P : LeafPred} {T : Toks} (hr : ReadContract P T) (k : Nat) (cp : Bool) (c : Nat) (lvb : Bool) {e : SVal × SVal} {es : List (SVal × SVal)}
+theorem layEntries_start {P : LeafPred} {T : Toks} {k : Nat} (hr : ReadContract P T k) (cp : Bool) (c : Nat) (lvb : Bool) {e : SVal × SVal} {es : List (SVal × SVal)}
     (hv : inFragEntriesP P (e :: es) = true) :
     ∃ t ls, (layEntries T k cp c lvb (e :: es)).1 = ⟨c, t⟩ :: ls ∧ MapStart t := by
   obtain ⟨kk, v⟩ := e
@@ -732,25 +808,25 @@ theorem layEntries_start {P : LeafPred} {T : Toks} (hr : ReadContract P T) (k : 
   · obtain ⟨kt, rfl, hkt⟩ := keyOk_iff hsk
     refine ⟨T.key kt ++ ':' :: (layVal T k cp true c lvb v).1,
       (layVal T k cp true c lvb v).2.1 ++ (layEntries T k cp c (layVal T k cp true c lvb v).2.2 es).1, ?_,
-      MapStart.key (hr.key kt hkt) (valHead_layVal hr k cp true v hv.1.2 c lvb)⟩
+      MapStart.key (hr.key kt hkt) (valHead_layVal hr cp true v hv.1.2 c lvb)⟩
     simp [layEntries, keyOf]
   · refine ⟨'?' :: ' ' :: (layItem T k cp c lvb kk).1,
       (layItem T k cp c lvb kk).2.1 ++ ⟨c, [':', ' '] ++ (layItem T k cp c false v).1⟩ :: (layItem T k cp c false v).2.1 ++
-        (layEntries T k cp c (layItem T k cp c false v).2.2 es).1, ?_, MapStart.question (itemHead_layItem hr k cp kk hck.2 c lvb)⟩
+        (layEntries T k cp c (layItem T k cp c false v).2.2 es).1, ?_, MapStart.question (itemHead_layItem hr cp kk hck.2 c lvb)⟩
     simp [layEntries, keyOf_complex' kk hck.1]
 
 /-- what follows a value inside a mapping at column `c`: the next entries, then `rest` -/
-theorem entries_rest_end {P : LeafPred} {T : Toks} (hr : ReadContract P T) (k : Nat) (cp : Bool) (c : Nat) (lvb : Bool) {es : List (SVal × SVal)} (hes : inFragEntriesP P es = true)
+theorem entries_rest_end {P : LeafPred} {T : Toks} {k : Nat} (hr : ReadContract P T k) (cp : Bool) (c : Nat) (lvb : Bool) {es : List (SVal × SVal)} (hes : inFragEntriesP P es = true)
     {rest : List Line} (hd : DedLt c rest) : SeqEnd c ((layEntries T k cp c lvb es).1 ++ rest) := by
   cases es with
   | nil => simpa [layEntries] using hd.seqEnd
   | cons p ps =>
-    obtain ⟨t, ls, he, ht⟩ := layEntries_start hr k cp c lvb hes
+    obtain ⟨t, ls, he, ht⟩ := layEntries_start hr cp c lvb hes
     rw [he]
     exact Or.inr ⟨_, _, rfl, ht.notSkippable c, Or.inr ⟨rfl, ht.notDash⟩⟩
 
 /-- a mapping right after `key:` -/
-theorem reads_mapVal {P : LeafPred} {T : Toks} {k : Nat} {cp : Bool} (hr : ReadContract P T) (hk : k ≥ 1) {es : List (SVal × SVal)} (hv : inFragEntriesP P es = true)
+theorem reads_mapVal {P : LeafPred} {T : Toks} {k : Nat} {cp : Bool} (hr : ReadContract P T k) (hk : k ≥ 1) {es : List (SVal × SVal)} (hv : inFragEntriesP P es = true)
     (hdup : hasDupKey (eraseEntries es) = false) (hentries : ReadsEntries T k cp es) :
     ReadsVal (fun c _ lvb => mapValOf (c + k) lvb es.isEmpty (layEntries T k cp (c + k) false es).1) (.map (eraseEntries es)) := by
   intro fuel c im lvb klen rest hfuel hd
@@ -762,7 +838,7 @@ theorem reads_mapVal {P : LeafPred} {T : Toks} {k : Nat} {cp : Bool} (hr : ReadC
     · simp only [mapValOf, List.isEmpty_nil, if_true, eraseEntries, valueParse_block, List.cons_append, List.nil_append]
       exact blockNode_emptyMap f' (c + 1) _ false (c + k) rest (by omega)
   | cons e es' =>
-    obtain ⟨t, ls, he, ht⟩ := layEntries_start hr k cp (c + k) false (e := e) (es := es') hv
+    obtain ⟨t, ls, he, ht⟩ := layEntries_start hr cp (c + k) false (e := e) (es := es') hv
     simp only [mapValOf, List.isEmpty_cons, Bool.false_eq_true, if_false, valueParse_block] at hfuel ⊢
     obtain ⟨f', rfl⟩ : ∃ f', fuel = f' + 1 := ⟨fuel - 1, by omega⟩
     have hi := hentries f' (c + k) false rest
@@ -773,7 +849,7 @@ theorem reads_mapVal {P : LeafPred} {T : Toks} {k : Nat} {cp : Bool} (hr : ReadC
     simp [hdup]
 
 /-- a mapping right after `- ` -/
-theorem reads_mapItem {P : LeafPred} {T : Toks} {k : Nat} {cp : Bool} (hr : ReadContract P T) {es : List (SVal × SVal)} (hv : inFragEntriesP P es = true)
+theorem reads_mapItem {P : LeafPred} {T : Toks} {k : Nat} {cp : Bool} (hr : ReadContract P T k) {es : List (SVal × SVal)} (hv : inFragEntriesP P es = true)
     (hdup : hasDupKey (eraseEntries es) = false) (hentries : ReadsEntries T k cp es) :
     ReadsItem (fun c lvb => layMapItem T k cp c lvb es) (.map (eraseEntries es)) := by
   intro fuel c seqAt lvb rest hfuel hd
@@ -788,7 +864,7 @@ theorem reads_mapItem {P : LeafPred} {T : Toks} {k : Nat} {cp : Bool} (hr : Read
       intro lvb
       obtain ⟨kk, v⟩ := e
       cases hko : keyOf kk <;> simp [layEntries, layMapItem, hko]
-    obtain ⟨t, ls, he, ht⟩ := layEntries_start hr k cp (c + 2) false (e := e) (es := es') hv
+    obtain ⟨t, ls, he, ht⟩ := layEntries_start hr cp (c + 2) false (e := e) (es := es') hv
     have ht' : MapStart (layMapItem T k cp c lvb (e :: es')).1 := by
       have := hlay lvb; rw [he] at this
       simp only [List.cons.injEq, Line.mk.injEq, true_and] at this
@@ -806,15 +882,15 @@ theorem reads_entries_nil {T : Toks} {k : Nat} {cp : Bool} : ReadsEntries T k cp
   obtain ⟨f', rfl⟩ : ∃ f', fuel = f' + 1 := ⟨fuel - 1, by omega⟩
   simpa [layEntries, eraseEntries] using blockMap_end f' c hd
 
-theorem reads_entries_cons {P : LeafPred} {T : Toks} {k : Nat} {cp : Bool} (hr : ReadContract P T) {kt : List Char} {v : SVal} {es : List (SVal × SVal)}
+theorem reads_entries_cons {P : LeafPred} {T : Toks} {k : Nat} {cp : Bool} (hr : ReadContract P T k) {kt : List Char} {v : SVal} {es : List (SVal × SVal)}
     (hk : P.key kt = true) (hvv : inFragP P v = true) (hes : inFragEntriesP P es = true)
     (h1 : ReadsVal (fun c im lvb => layVal T k cp im c lvb v) (erase v)) (h2 : ReadsEntries T k cp es) :
     ReadsEntries T k cp ((.str kt, v) :: es) := by
   intro fuel c lvb rest hfuel hd
-  have hh := valHead_layVal hr k cp true v hvv c lvb
+  have hh := valHead_layVal hr cp true v hvv c lvb
   simp only [layEntries, keyOf, mu, mu_append, List.length_append, List.length_cons, List.length_nil] at hfuel
   obtain ⟨f', rfl⟩ : ∃ f', fuel = f' + 1 := ⟨fuel - 1, by omega⟩
-  have hrest := entries_rest_end hr k cp c (layVal T k cp true c lvb v).2.2 hes hd
+  have hrest := entries_rest_end hr cp c (layVal T k cp true c lvb v).2.2 hes hd
   have h1 := h1 f' c true lvb ((T.key kt).length + 1) ((layEntries T k cp c (layVal T k cp true c lvb v).2.2 es).1 ++ rest) (by dsimp only; omega) hrest
   have h2 := h2 f' c (layVal T k cp true c lvb v).2.2 rest (by omega) hd
   simp only [layEntries, keyOf, List.cons_append, List.append_assoc, List.singleton_append, List.nil_append, eraseEntries, erase]
@@ -824,17 +900,17 @@ theorem reads_entries_cons {P : LeafPred} {T : Toks} {k : Nat} {cp : Bool} (hr :
   rfl
 
 /-- an entry with a composite key: `? key` / `: value` -/
-theorem reads_entries_cons_complex {P : LeafPred} {T : Toks} {k : Nat} {cp : Bool} (hr : ReadContract P T) {key v : SVal} {es : List (SVal × SVal)}
+theorem reads_entries_cons_complex {P : LeafPred} {T : Toks} {k : Nat} {cp : Bool} (hr : ReadContract P T k) {key v : SVal} {es : List (SVal × SVal)}
     (hkc : isComplexKey key = true) (hkk : inFragP P key = true) (hvv : inFragP P v = true) (hes : inFragEntriesP P es = true)
     (h0 : ReadsItem (fun c lvb => layItem T k cp c lvb key) (erase key))
     (h1 : ReadsItem (fun c lvb => layItem T k cp c lvb v) (erase v)) (h2 : ReadsEntries T k cp es) :
     ReadsEntries T k cp ((key, v) :: es) := by
   intro fuel c lvb rest hfuel hd
-  have hhk := itemHead_layItem hr k cp key hkk c lvb
-  have hhv := itemHead_layItem hr k cp v hvv c false
+  have hhk := itemHead_layItem hr cp key hkk c lvb
+  have hhv := itemHead_layItem hr cp v hvv c false
   simp only [layEntries, keyOf_complex' key hkc, mu, mu_append, List.length_append, List.length_cons, List.length_nil] at hfuel
   obtain ⟨f', rfl⟩ : ∃ f', fuel = f' + 1 := ⟨fuel - 1, by omega⟩
-  have hrest := (entries_rest_end hr k cp c (layItem T k cp c false v).2.2 hes hd).ded
+  have hrest := (entries_rest_end hr cp c (layItem T k cp c false v).2.2 hes hd).ded
   -- the key: everything up to the `: ` line
   have hk0 := h0 f' c none lvb
     (⟨c, ':' :: ' ' :: (layItem T k cp c false v).1⟩ :: (layItem T k cp c false v).2.1 ++ (layEntries T k cp c (layItem T k cp c false v).2.2 es).1 ++ rest)
@@ -885,17 +961,17 @@ theorem reads_variantItem {N n : List Char} (hn : KeyTok N n) {r : Nat → Bool 
 
 mutual
 /-- the value of a key: text after `key:` plus the following lines -/
-theorem read_val {P : LeafPred} {T : Toks} {k : Nat} {cp : Bool} (hr : ReadContract P T) (hk : k ≥ 1) : ∀ (v : SVal), inFragP P v = true → ReadsVal (fun c im lvb => layVal T k cp im c lvb v) (erase v)
+theorem read_val {P : LeafPred} {T : Toks} {k : Nat} {cp : Bool} (hr : ReadContract P T k) (hk : k ≥ 1) : ∀ (v : SVal), inFragP P v = true → ReadsVal (fun c im lvb => layVal T k cp im c lvb v) (erase v)
   | .unit, _ => by simpa [layVal, erase] using reads_leaf_val scalarTok_null
   | .none, _ => by simpa [layVal, erase] using reads_leaf_val scalarTok_null
   | .bool b, _ => by simpa [layVal, erase] using reads_leaf_val (scalarTok_bool b)
   | .int i, _ => by simpa [layVal, erase] using reads_leaf_val (scalarTok_int i)
   | .str t, hv => by
     simp only [inFragP] at hv
-    simpa [layVal, erase] using reads_leaf_val (hr.str t hv)
+    simpa [layVal, erase] using reads_leafOK_val (r := fun c => T.strAt k (.val c) t) (fun c => hr.str (.val c) t hv)
   | .unitVariant e n, hv => by
     simp only [inFragP] at hv
-    simpa [layVal, erase] using reads_leaf_val (hr.unit e n hv)
+    simpa [layVal, erase] using reads_leafOK_val (r := fun c => T.unitAt k (.val c) e n) (fun c => hr.unit (.val c) e n hv)
   | .some v, hv => by
     simp only [inFragP] at hv
     simpa [layVal, erase] using read_val hr hk v hv
@@ -917,7 +993,7 @@ theorem read_val {P : LeafPred} {T : Toks} {k : Nat} {cp : Bool} (hr : ReadContr
   | .newtypeVariant n v, hv => by
     simp only [inFragP, Bool.and_eq_true] at hv
     simpa [layVal, erase] using reads_variantVal hk (hr.name n hv.1) (r := fun c im lvb => layVal T k cp im c lvb v)
-      (fun c im lvb => valHead_layVal hr k cp im v hv.2 c lvb) (read_val hr hk v hv.2)
+      (fun c im lvb => valHead_layVal hr cp im v hv.2 c lvb) (read_val hr hk v hv.2)
   | .tupleVariant n xs, hv => by
     simp only [inFragP, Bool.and_eq_true] at hv
     simpa [layVal, erase] using reads_variantVal hk (hr.name n hv.1) (r := fun c im _ => seqValOf xs.isEmpty (layItems T k cp (seqCol k cp im c) false xs).1)
@@ -934,17 +1010,17 @@ theorem read_val {P : LeafPred} {T : Toks} {k : Nat} {cp : Bool} (hr : ReadContr
   | .litStr _, hv => by simp [inFragP] at hv
   | .foldStr _, hv => by simp [inFragP] at hv
 /-- an item of a sequence: text after `- ` plus the following lines -/
-theorem read_item {P : LeafPred} {T : Toks} {k : Nat} {cp : Bool} (hr : ReadContract P T) (hk : k ≥ 1) : ∀ (v : SVal), inFragP P v = true → ReadsItem (fun c lvb => layItem T k cp c lvb v) (erase v)
+theorem read_item {P : LeafPred} {T : Toks} {k : Nat} {cp : Bool} (hr : ReadContract P T k) (hk : k ≥ 1) : ∀ (v : SVal), inFragP P v = true → ReadsItem (fun c lvb => layItem T k cp c lvb v) (erase v)
   | .unit, _ => by simpa [layItem, erase] using reads_leaf_item scalarTok_null
   | .none, _ => by simpa [layItem, erase] using reads_leaf_item scalarTok_null
   | .bool b, _ => by simpa [layItem, erase] using reads_leaf_item (scalarTok_bool b)
   | .int i, _ => by simpa [layItem, erase] using reads_leaf_item (scalarTok_int i)
   | .str t, hv => by
     simp only [inFragP] at hv
-    simpa [layItem, erase] using reads_leaf_item (hr.str t hv)
+    simpa [layItem, erase] using reads_leafOK_item (r := fun c => T.strAt k (.item c) t) (fun c => hr.str (.item c) t hv)
   | .unitVariant e n, hv => by
     simp only [inFragP] at hv
-    simpa [layItem, erase] using reads_leaf_item (hr.unit e n hv)
+    simpa [layItem, erase] using reads_leafOK_item (r := fun c => T.unitAt k (.item c) e n) (fun c => hr.unit (.item c) e n hv)
   | .some v, hv => by
     simp only [inFragP] at hv
     simpa [layItem, erase] using read_item hr hk v hv
@@ -966,7 +1042,7 @@ theorem read_item {P : LeafPred} {T : Toks} {k : Nat} {cp : Bool} (hr : ReadCont
   | .newtypeVariant n v, hv => by
     simp only [inFragP, Bool.and_eq_true] at hv
     simpa [layItem, erase] using reads_variantItem (hr.name n hv.1) (r := fun c im lvb => layVal T k cp im c lvb v)
-      (fun c im lvb => valHead_layVal hr k cp im v hv.2 c lvb) (read_val hr hk v hv.2)
+      (fun c im lvb => valHead_layVal hr cp im v hv.2 c lvb) (read_val hr hk v hv.2)
   | .tupleVariant n xs, hv => by
     simp only [inFragP, Bool.and_eq_true] at hv
     simpa [layItem, erase] using reads_variantItem (hr.name n hv.1) (r := fun c im _ => seqValOf xs.isEmpty (layItems T k cp (seqCol k cp im c) false xs).1)
@@ -983,13 +1059,13 @@ theorem read_item {P : LeafPred} {T : Toks} {k : Nat} {cp : Bool} (hr : ReadCont
   | .litStr _, hv => by simp [inFragP] at hv
   | .foldStr _, hv => by simp [inFragP] at hv
 /-- the items of a block sequence at depth `d` -/
-theorem read_items {P : LeafPred} {T : Toks} {k : Nat} {cp : Bool} (hr : ReadContract P T) (hk : k ≥ 1) : ∀ (xs : List SVal), inFragListP P xs = true → ReadsItems T k cp xs
+theorem read_items {P : LeafPred} {T : Toks} {k : Nat} {cp : Bool} (hr : ReadContract P T k) (hk : k ≥ 1) : ∀ (xs : List SVal), inFragListP P xs = true → ReadsItems T k cp xs
   | [], _ => reads_items_nil
   | x :: xs, hv => by
     simp only [inFragListP, Bool.and_eq_true] at hv
     exact reads_items_cons hr hv.1 (read_item hr hk x hv.1) (read_items hr hk xs hv.2)
 /-- the entries of a block mapping at depth `m` -/
-theorem read_entries {P : LeafPred} {T : Toks} {k : Nat} {cp : Bool} (hr : ReadContract P T) (hk : k ≥ 1) : ∀ (es : List (SVal × SVal)), inFragEntriesP P es = true → ReadsEntries T k cp es
+theorem read_entries {P : LeafPred} {T : Toks} {k : Nat} {cp : Bool} (hr : ReadContract P T k) (hk : k ≥ 1) : ∀ (es : List (SVal × SVal)), inFragEntriesP P es = true → ReadsEntries T k cp es
   | [], _ => reads_entries_nil
   | (kk, v) :: es, hv => by
     simp only [inFragEntriesP, Bool.and_eq_true, Bool.or_eq_true] at hv
